@@ -17,22 +17,28 @@ pub struct Op {
     pub kind: u8,
     pub a: u64,
     pub n: usize,
+    /// append only: concrete term for every entry (0 = symbolic non-decreasing terms)
+    pub t: u64,
 }
 
 pub const fn append(start: u64, n: usize) -> Op {
-    Op { kind: 1, a: start, n }
+    Op { kind: 1, a: start, n, t: 0 }
+}
+/// append(start, n) with the concrete term `t` for every entry
+pub const fn append_t(start: u64, n: usize, t: u64) -> Op {
+    Op { kind: 1, a: start, n, t }
 }
 pub const fn compact(idx: u64) -> Op {
-    Op { kind: 2, a: idx, n: 0 }
+    Op { kind: 2, a: idx, n: 0, t: 0 }
 }
 pub const fn snap(idx: u64) -> Op {
-    Op { kind: 3, a: idx, n: 0 }
+    Op { kind: 3, a: idx, n: 0, t: 0 }
 }
-pub const HS: Op = Op { kind: 4, a: 0, n: 0 };
+pub const HS: Op = Op { kind: 4, a: 0, n: 0, t: 0 };
 pub const fn commit(idx: u64) -> Op {
-    Op { kind: 5, a: idx, n: 0 }
+    Op { kind: 5, a: idx, n: 0, t: 0 }
 }
-pub const CS: Op = Op { kind: 6, a: 0, n: 0 };
+pub const CS: Op = Op { kind: 6, a: 0, n: 0, t: 0 };
 
 pub struct Model {
     /// index / term of the last applied snapshot (its term stays answerable)
@@ -96,7 +102,7 @@ pub fn script(s: &mut Src, ops: &[Op], q_lo: u64, q_hi: u64) {
             let mut prev = base_term;
             let mut j = 0;
             while j < op.n {
-                let t = s.u64();
+                let t = if op.t != 0 { op.t } else { s.u64() };
                 vassume!(t >= prev && t >= 1 && t < (1 << 62));
                 let mut e = Entry::default();
                 e.index = op.a + j as u64;
